@@ -716,4 +716,100 @@ theorem step_jumpi (s : IState) (hcode : s.code[s.pc]? = some 0x57) (hwf : s.gas
   rw [jumpiI_eq (adv s) hwf]
   rfl
 
+
+/-! ## SLOAD, TLOAD -/
+
+theorem sloadI_eq (s : IState) (hwf : s.gas.remaining < U64) :
+    sloadI s = (match s.stack.reverse with
+      | key :: rest => .host (.sload s.target key) (sloadAfter s rest)
+      | [] => .halt .StackUnderflow [] s) := by
+  unfold sloadI hostCall
+  rcases hrev : s.stack.reverse with _ | ⟨key, rest⟩
+  · have : s.stack.length < 1 := by rw [← List.length_reverse, hrev]; decide
+    rw [bind_halt _ _ _ _ _ _ (popTop1_underflow s this)]
+  · have hs : s.stack = rest.reverse ++ [key] := by
+      have := congrArg List.reverse hrev; simpa using this
+    rw [bind_ok _ _ _ _ _ (popTop1_ok s _ key hs)]
+    have hget : getS s = .ok s s := rfl
+    rw [bind_ok _ _ _ _ _ hget]
+    show Outcome.host (.sload s.target key) _ = _
+    congr 1
+    funext r
+    unfold sloadAfter
+    show ((do requireSome r; let s ← getS; gasCharge (GasCalc.sloadCost s.spec r.isCold); setTop r.word : M Unit) s).toDone = _
+    by_cases hok : r.ok
+    · have hreq : requireSome r s = .ok () s := by simp [requireSome, hok]
+      rw [bind_ok _ _ _ _ _ hreq, bind_ok _ _ _ _ _ hget]
+      simp only [hok, Bool.not_true, Bool.false_eq_true, if_false]
+      generalize GasCalc.sloadCost s.spec r.isCold = c
+      by_cases hg : s.gas.remaining < c
+      · rw [bind_halt _ _ _ _ _ _ (gasCharge_fail s c hg), if_pos hg]; rfl
+      · rw [bind_ok _ _ _ _ _ (gasCharge_ok s c hwf (by omega)), if_neg hg]
+        have := setTop_ok { s with gas := { s.gas with remaining := s.gas.remaining - c } } rest.reverse key r.word hs
+        simp only [this, Exec.toDone, List.reverse_cons, charge]
+    · have hreq : requireSome r s = .halt .FatalExternalError [] s := by simp [requireSome, hok]
+      rw [bind_halt _ _ _ _ _ _ hreq]
+      simp [hok, Exec.toDone]
+
+theorem step_sload (s : IState) (hcode : s.code[s.pc]? = some 0x54) (hwf : s.gas.remaining < U64) :
+    step s = sloadRule s := by
+  unfold step
+  rw [hcode]
+  have hdec : decode 0x54 = .sload := rfl
+  simp only [hdec, execInstr, execPure]
+  show sloadI (adv s) = _
+  rw [sloadI_eq (adv s) hwf]
+  rfl
+
+theorem tloadI_eq (s : IState) (hwf : s.gas.remaining < U64) :
+    tloadI s =
+      (if !enabled s.spec GasCalc.SpecId.CANCUN then Outcome.halt .NotActivated [] s
+       else if s.gas.remaining < GasCalc.WARM_STORAGE_READ_COST then .halt .OutOfGas [] s
+       else match s.stack.reverse with
+         | key :: rest =>
+           .host (.tload s.target key) (fun r =>
+             .next { charge s GasCalc.WARM_STORAGE_READ_COST with stack := (r.word :: rest).reverse })
+         | [] => .halt .StackUnderflow [] (charge s GasCalc.WARM_STORAGE_READ_COST)) := by
+  unfold tloadI hostCall
+  by_cases hen : enabled s.spec GasCalc.SpecId.CANCUN
+  · have hc : check GasCalc.SpecId.CANCUN s = .ok () s := by simp [check, hen]
+    rw [bind_ok _ _ _ _ _ hc]
+    simp only [hen, Bool.not_true, Bool.false_eq_true, if_false]
+    by_cases hg : s.gas.remaining < GasCalc.WARM_STORAGE_READ_COST
+    · rw [bind_halt _ _ _ _ _ _ (gasCharge_fail s _ hg), if_pos hg]
+    · rw [bind_ok _ _ _ _ _ (gasCharge_ok s _ hwf (by omega)), if_neg hg]
+      generalize hs2 : ({ s with gas := { s.gas with remaining := s.gas.remaining - GasCalc.WARM_STORAGE_READ_COST } } : IState) = s2
+      have hst : s2.stack = s.stack := by rw [← hs2]
+      have htg : s2.target = s.target := by rw [← hs2]
+      have hch : charge s GasCalc.WARM_STORAGE_READ_COST = s2 := hs2
+      rw [hch]
+      rcases hrev : s.stack.reverse with _ | ⟨key, rest⟩
+      · have : s2.stack.length < 1 := by rw [hst, ← List.length_reverse, hrev]; decide
+        rw [bind_halt _ _ _ _ _ _ (popTop1_underflow s2 this)]
+      · have hs : s2.stack = rest.reverse ++ [key] := by
+          rw [hst]; have := congrArg List.reverse hrev; simpa using this
+        rw [bind_ok _ _ _ _ _ (popTop1_ok s2 _ key hs)]
+        have hget : getS s2 = .ok s2 s2 := rfl
+        rw [bind_ok _ _ _ _ _ hget]
+        show Outcome.host (.tload s2.target key) _ = _
+        rw [htg]
+        congr 1
+        funext r
+        show (setTop r.word s2).toDone = _
+        have := setTop_ok s2 rest.reverse key r.word hs
+        simp only [this, Exec.toDone, List.reverse_cons, htg]
+  · have hc : check GasCalc.SpecId.CANCUN s = .halt .NotActivated [] s := by simp [check, hen]
+    rw [bind_halt _ _ _ _ _ _ hc]
+    simp [hen]
+
+theorem step_tload (s : IState) (hcode : s.code[s.pc]? = some 0x5c) (hwf : s.gas.remaining < U64) :
+    step s = tloadRule s := by
+  unfold step
+  rw [hcode]
+  have hdec : decode 0x5c = .tload := rfl
+  simp only [hdec, execInstr, execPure]
+  show tloadI (adv s) = _
+  rw [tloadI_eq (adv s) hwf]
+  rfl
+
 end Revm.Proofs.EvmStep
